@@ -1,16 +1,19 @@
 import Driver.Codec
+import Driver.Db
 
 open SqliteDissect
 
-def dispatch (toks : List String) : String :=
+def dispatch (toks : List String) : IO String := do
   match toks with
-  | [] => "bad-op"
+  | [] => pure "bad-op"
   | op :: _ =>
-    let r : Option String :=
+    let r : Option String ←
       if op.startsWith "varint." || op.startsWith "serial." || op.startsWith "overflow." || op.startsWith "spec." then
-        Driver.Codec.handle toks
-      else none
-    r.getD "bad-op"
+        pure (Driver.Codec.handle toks)
+      else if op.startsWith "db." then
+        (try Driver.Db.handle toks catch e => pure (some s!"io-error {e}"))
+      else pure none
+    pure (r.getD "bad-op")
 
 partial def loop (hin : IO.FS.Stream) (hout : IO.FS.Stream) : IO Unit := do
   let line ← hin.getLine
@@ -20,7 +23,7 @@ partial def loop (hin : IO.FS.Stream) (hout : IO.FS.Stream) : IO Unit := do
     hout.putStrLn "flushed"
     hout.flush
   else
-    hout.putStrLn (dispatch toks)
+    hout.putStrLn (← dispatch toks)
   loop hin hout
 
 def main : IO Unit := do
